@@ -1411,13 +1411,14 @@ class FortranFile:
             # Test for scope end
             if file_ast.end_scope_regex is not None:
                 match = FRegex.END_WORD.match(line_no_comment)
-                # Handle end statement
-                if self.parse_end_scope_word(line_no_comment, line_no, file_ast, match):
-                    continue
-                # Look for old-style end of DO loops with line labels
+                # Look for old-style end of DO loops with line labels, the terminal
+                # statement may itself be a labelled END DO
                 if self.parse_do_fixed_format(
                     line, line_no, file_ast, line_label, block_id_stack
                 ):
+                    continue
+                # Handle end statement
+                if self.parse_end_scope_word(line_no_comment, line_no, file_ast, match):
                     continue
 
             # Skip if known generic code line
